@@ -203,7 +203,12 @@ def sibling_isolation(h: Harness):
         C("Leaf", False, 0, []),
         C("Pair", False, 0, [("lo", ("ann", "int", ("intRange", 1, 2))), ("u", ("union", ("cls", 1), ("cls", 3))),
                              ("xs", ("ann", ("list", "int"), ("depListSize", "lo")))]),
-    ], 0, [2, 3, 4, 1])
+        # a refinement that depends on TWO siblings, named in the opposite order of their declaration:
+        # Dependent("scale,base", lambda scale, base: IntRange(base, base + scale))
+        C("Span", False, 0, [("base", ("ann", "int", ("intRange", 100, 110))), ("scale", ("ann", "int", ("intRange", 1, 3))),
+                             ("value", ("ann", "int", ("depIntRangeSpan", "scale", "base"))),
+                             ("other", ("ann", "int", ("depIntRangeSpan", "scale", "value")))]),
+    ], 0, [2, 3, 4, 1, 5])
     b = gram.build(spec)
     g = b.extract()
     line_spec = gram.spec_sx(spec)
@@ -225,4 +230,8 @@ def sibling_isolation(h: Harness):
 def run(h: Harness):
     boxes(h)
     sibling_isolation(h)
+    # a refinement re-declared on an already used class (the documented `Cls.__init__.__annotations__[f] = ...` idiom):
+    # the next grammar must generate from the NEW refinement
+    import props.c01 as c01
+    c01.retarget_scenario(h, h.rng)
     programs(h)
